@@ -98,8 +98,8 @@ func (fr *frame) beforeAsserts(cc *ssa.CallCommon, st *bstate, site ssa.Instruct
 		if !match || !f.e.active(ba.C.Tags) {
 			continue
 		}
-		if fr.siteOrdinal(ba.Callee, site) != ba.Ordinal {
-			continue
+		if ba.Ordinal != 0 && fr.siteOrdinal(ba.Callee, site) != ba.Ordinal {
+			continue // #0: the clause holds at every call of the callee in this function
 		}
 		ba.C.used = true
 		env := fr.specEnv(st.heap, fr.oldHeap, nil)
